@@ -56,6 +56,14 @@ Theorem C11_cpp_tick_is_spec : forall (N : Num) (SV R : Type) pmc smc ts max_dt 
   cpp_tick N SV R pmc smc ts max_dt h out rs = tick_spec N SV R pmc smc ts max_dt h out rs.
 Proof. exact cpp_tick_is_spec. Qed.
 
+(** hold at the last reading: two ticks equal one tick over the concatenated readings, whatever output time the
+    first tick reported at — reporting leaves no trace in what is held *)
+Theorem C11_two_ticks_are_one : forall (N : Num) (SV R : Type) pmc smc ts max_dt h out1 out rs1 rs2 h1 e1,
+  tick_spec N SV R pmc smc ts max_dt h out1 rs1 = Some (h1, e1) ->
+  tick_spec N SV R pmc smc ts max_dt h1 out rs2 = tick_spec N SV R pmc smc ts max_dt h out (rs1 ++ rs2).
+Proof. exact tick_split. Qed.
+Print Assumptions C11_two_ticks_are_one.
+
 (** the header's tick overloads have the modelled skeleton (regenerated fact), and its processUpdate is the model's *)
 Theorem C11_cpp_header_as_modelled : cpp_tick_skeleton_as_modelled = true /\
   forall (N : Num) (SV : Type) pmc max_dt cur st out,
